@@ -11,6 +11,9 @@
  *   SUB pid size           device queues a SUBSCRIBE (real mqtt_subscribe, the LFSR is positioned so that pid comes next)
  *   PUB qos pid size       device queues a PUBLISH "a/b" "x" (real mqtt_publish)
  *   PING                   device queues a PINGREQ (real mqtt_ping)
+ *   RELINK n               a new session: after a protocol error the reconnect has already run; otherwise the link dies now
+ *                          (disconnect callback, the next send fails -> socket error -> real supla_esp_mqtt_reconnect);
+ *                          then conn_on_connect + mqtt_sync as in START
  * outputs:
  *   BOOT n | MSG dup qos retain toff tlen poff plen valid : <topic||payload, clamped to the valid bytes>
  *   | SENT type : <hex for acknowledgement types 4..7> | QUEUED type pid size | DROPPED | ERR code | RECONNECT
@@ -101,6 +104,23 @@ static void run_case(int n, char **lines) {
   for (int i = 0; i < n; i++) {
     char *l = lines[i];
     if (strncmp(l, "START", 5) == 0) { if (!started) do_start(); check_error(); continue; }
+    if (strncmp(l, "RELINK", 6) == 0 && started) {
+      struct mqtt_client *cl = c16_client();
+      if (!halted) {
+        armed = 1;
+        c16_on_disconnect();            /* status DISCONNECTED: mqtt_pal_sendall refuses */
+        mqtt_ping(cl);
+        c16_sync();                     /* the send fails: MQTT_ERROR_SOCKET_ERROR */
+        v_now += 6000000ULL;
+        c16_sync();                     /* reconnect callback: disconnect, mqtt_reinit, espconn_connect (prints RECONNECT) */
+      }
+      halted = 0;
+      c16_on_connect();
+      vout("BOOT %u", mqtt_mq_length(&cl->mq) > 0 ? (unsigned)mqtt_mq_get(&cl->mq, 0)->size : 0u);
+      c16_sync();
+      check_error();
+      continue;
+    }
     if (!started || halted) continue;
     struct mqtt_client *c = c16_client();
     if (strncmp(l, "SEG", 3) == 0) {
